@@ -39,6 +39,9 @@ func optionSet(r *rng.R) gobuild.Options {
 		o.NoRecurse = true
 	case 6:
 		o.PkgPrefix = "genout/x/y-z/gen"
+		if r.Chance(1, 2) {
+			o.PkgPrefix += "/" // not in clean form: the import paths must be the cleaned ones
+		}
 	case 7:
 		o.ThriftRoot = true
 		o.NoZap = r.Bool()
